@@ -299,8 +299,12 @@ func litOracle(kind, v string) string {
 				if !ok {
 					return "FAIL " + hxs(fm+": a string literal of the emitted file is malformed (ECMA-262 StringLiteral)")
 				}
-				if !strings.Contains(text, c.expect) && !(kind == "cssexpr" && strings.Contains(text, v)) {
-					return "FAIL " + hxs(fmt.Sprintf("%s: no string literal of the emitted file denotes %q", fm, c.expect))
+				needle := c.expect
+				if kind == "cssexpr" || kind == "globalmap" || kind == "global" {
+					needle = v
+				}
+				if !strings.Contains(text, needle) {
+					return "FAIL " + hxs(fmt.Sprintf("%s: no string literal of the emitted file denotes %q", fm, needle))
 				}
 			}
 			if hasAstral(c.expect) {
